@@ -9,6 +9,9 @@
 //!                     2 with_config(decoy values) then every setter, 3 every setter with decoy values then
 //!                     with_config(the real values);
 //!           R (scripted checks per resource); n_ev;
+//!             + 64: the registered on_check_failed panics (after recording its call), + 128: the registered
+//!               on_health_change panics (after recording), + 256: those panics carry a payload whose destructor
+//!               panics (routes 1-3 only: route 0 cannot register the callbacks);
 //!           (status 0 Healthy/1 Degraded/2 Unhealthy/3 Unknown, delay_ms)* R per resource, resource-major;
 //!           (op, arg)* n_ev]
 //!   op 0: advance arg ms of virtual time, then observe every resource
@@ -53,6 +56,23 @@ impl HealthTriggerable for CountingTrigger {
     }
     fn trigger_degraded(&self) {
         self.0.trigger_calls.fetch_add(1, Ordering::SeqCst);
+    }
+}
+
+/// a panic payload whose destructor panics
+struct Bomb;
+impl Drop for Bomb {
+    fn drop(&mut self) {
+        if !std::thread::panicking() {
+            panic!("payload destructor");
+        }
+    }
+}
+fn blow(bomb: bool) -> ! {
+    if bomb {
+        std::panic::panic_any(Bomb)
+    } else {
+        panic!("callback")
     }
 }
 
@@ -111,6 +131,8 @@ fn run(s: &[i128]) -> Vec<i128> {
     let (interval, timeout, init) = (zn(s, 3) as u64, zn(s, 4) as u64, zn(s, 5) as u64);
     let strat = zn(s, 6).rem_euclid(16);
     let route = zn(s, 6).div_euclid(16).rem_euclid(4);
+    let flags = zn(s, 6).div_euclid(64);
+    let (failed_panics, change_panics, bomb) = (flags & 1 != 0, flags & 2 != 0, flags & 4 != 0);
     let r = zn(s, 7).max(0) as usize;
     let n_ev = zn(s, 8).max(0) as usize;
     let mut table = Vec::new();
@@ -163,12 +185,20 @@ fn run(s: &[i128]) -> Vec<i128> {
                     if i < last.len() {
                         last[i] = code(new);
                     }
+                    drop(last);
+                    if change_panics {
+                        blow(bomb);
+                    }
                 })
                 .on_check_failed(move |name: &str, _e: &dyn std::error::Error| {
                     let i = idx_of(name);
                     let mut f = s2.check_failed.lock().unwrap();
                     if i < f.len() {
                         f[i] += 1;
+                    }
+                    drop(f);
+                    if failed_panics {
+                        blow(bomb);
                     }
                 })
                 .with_trigger(Arc::new(CountingTrigger(sh.clone())))
